@@ -15,7 +15,7 @@ RULE = (
     "both outcomes accepted). Every call is also executed on a fresh graph rebuilt from the state before the call with the opposite verbose "
     "flag: reports and poses must be identical (no hidden state, printing does not alter results; this subsumes splitting a run into consecutive "
     "calls); the single steps are additionally replayed through graphs rebuilt from scratch before every iteration (nothing may be carried across iterations). Non-trivial = early stop at 1 < k < max_iter, stop exactly at max_iter with converged=True, a run whose chi2 increased at some "
-    "iteration, or a history of >= 2 calls."
+    "iteration, or a history of >= 2 calls. Also: tol placed at 0.5x/2x/10x the relative chi2 change (decrease or increase) of an iteration of the run itself; vertex poses nudged in place between calls; the stopping decision must be exactly consistent with the reported chi2 values."
 )
 BUDGET = {"quick": 16 * 300, "thorough": 16 * 4000}
 TOLERANCES = {
